@@ -1,5 +1,5 @@
 /- L0 facts about AverageTrueRange::reset (split from Lemmas/AverageTrueRange.lean so that a change to one method only invalidates the facts about that method) -/
-import TaRs.Lemmas.AverageTrueRange
+import TaRs.Lemmas.Core.AverageTrueRange
 import TaRs.Lemmas.Reset.ExponentialMovingAverage
 import TaRs.Lemmas.Reset.TrueRange
 set_option linter.unusedSectionVars false
